@@ -20,14 +20,15 @@ K2 = "focal-vertex-is-min-endpoint"
 RULE = ("(1) C11's clean networks built 60..90% class-assortative, with targets (uniform / product / assortative over the excess classes) from which "
         "10..70% of the unordered pairings not present in the start network are deleted or set to 0.0 (both orientations together), sometimes a whole "
         "row; (2) 2-/3-clique (and 2-/4-clique in thorough) networks with 2..4 joint-degree classes, N 300..450, start 40% assortative, target "
-        "0.2*q q^T + 0.8*diag(q), CONVERGENCE_LIMIT = 0.75 |E|, vertex ids shuffled (must approach) or sorted by class (known finding K2); "
+        "0.2*q q^T + 0.8*diag(q), CONVERGENCE_LIMIT = 0.75 |E|, vertex ids shuffled (must approach) or sorted by class (known finding K2); (2b) 'short-cross': hand-composed two-class triangle networks (60 % cross-class "
+        "edges) towards a target with 80 % cross-class weight, only 0.18 |E| swaps, so that corners are still whole triangle corners; "
         "non-trivial = (1) >= 1 removed pairing that a proposal actually asked for, (2) |before - after| > 0.1; distinct = SHA-1 of the case")
 ASSUMPTIONS = ["a pairing is unordered: (a,b) and (b,a) are removed together and a created edge is accepted if either orientation has positive weight",
                "clause (2) is about typical behaviour: decided on workloads where the measured effect is > 20x the sampling noise, verdict = plain after < before",
                "violations of C11's clauses seen by the shared monitor are not C12's to report: such a run is counted inconclusive here"]
 HEADLINE = ["hard_rule_runs", "reused_object_runs", "created_edges", "accepted_swaps", "proposals", "numerator_missing_key", "numerator_zero_weight", "forbidden_pairings", "stopped_runs",
             "approach_runs", "approach_decreased", "approach_sorted_ids_runs", "approach_sorted_ids_not_decreased"]
-REQUIRED = {"quick": {"created_edges": 500, "numerator_missing_key": 20, "numerator_zero_weight": 20, "approach_runs": 3, "forbidden_pairings": 50},
+REQUIRED = {"quick": {"created_edges": 500, "numerator_missing_key": 20, "numerator_zero_weight": 20, "approach_runs": 5, "forbidden_pairings": 50},
             "thorough": {"created_edges": 20000, "numerator_missing_key": 500, "numerator_zero_weight": 500, "approach_runs": 30, "forbidden_pairings": 1000}}
 MAX_INCONCLUSIVE_FRACTION = 0.1
 SHARD_TIMEOUT = {"quick": 900, "thorough": 14400}
@@ -43,11 +44,15 @@ def gen_cases(tier, seed):
         for i in range(3):
             cases.append({"kind": "approach", "ids": "shuffled", "seed": seed * 100357 + i, "_cost": 40, "fam": "c2c3"})
         cases.append({"kind": "approach", "ids": "sorted", "seed": seed * 100357 + 7, "_cost": 40, "fam": "c2c3"})
+        for i in range(2):
+            cases.append({"kind": "approach", "ids": "shuffled", "seed": seed * 100357 + 50 + i, "_cost": 20, "fam": "c3", "variant": "short-cross"})
     else:
         for i in range(34):
             cases.append({"kind": "approach", "ids": "shuffled", "seed": seed * 100357 + i, "_cost": 60, "fam": "c2c4" if i % 4 == 3 else "c2c3", "thorough": True})
         for i in range(6):
             cases.append({"kind": "approach", "ids": "sorted", "seed": seed * 100357 + 100 + i, "_cost": 60, "fam": "c2c3", "thorough": True})
+        for i in range(12):
+            cases.append({"kind": "approach", "ids": "shuffled", "seed": seed * 100357 + 200 + i, "_cost": 30, "fam": "c3", "variant": "short-cross", "thorough": True})
     return cases
 
 
@@ -115,6 +120,56 @@ def run_hard(case, res, reuse=None, rng=None):
     res.digest = digest(base)
 
 
+def build_two_class_triangles(rng, NA, NB, mixed_each, dA=2, dB=4):
+    """harness-built clean triangle network with a prescribed composition: NA vertices in dA triangles, NB in dB triangles,
+    `mixed_each` triangles of shape AAB and as many of shape ABB, the rest pure; vertex ids unrelated to class.
+    A start that is already more cross-class than chance (so that a rule accepting too freely drifts back towards chance)."""
+    from gcmpy import NetworkNames as NN
+    ids = list(range(NA + NB))
+    rng.shuffle(ids)
+    A, B = ids[:NA], ids[NA:]
+    for _ in range(200):
+        stubs = {"A": [v for v in A for _ in range(dA)], "B": [v for v in B for _ in range(dB)]}
+        rng.shuffle(stubs["A"]); rng.shuffle(stubs["B"])
+        na = (len(stubs["A"]) - 3 * mixed_each) // 3
+        nb = (len(stubs["B"]) - 3 * mixed_each) // 3
+        if na < 0 or nb < 0:
+            raise RuntimeError("composition impossible")
+        shapes = ["AAB"] * mixed_each + ["ABB"] * mixed_each + ["AAA"] * na + ["BBB"] * nb
+        G = MonitoredGraph()
+        G._quiet = True
+        G.add_nodes_from(range(NA + NB))
+        ok = True
+        for mid, shape in enumerate(shapes):
+            for _attempt in range(300):
+                picks = [rng.randrange(len(stubs[c])) for c in shape]
+                tri = [stubs[c][i] for c, i in zip(shape, picks)]
+                es = [(tri[0], tri[1]), (tri[0], tri[2]), (tri[1], tri[2])]
+                same = any(shape[i] == shape[j] and picks[i] == picks[j] for i in range(3) for j in range(i))
+                if not same and len(set(tri)) == 3 and not any(G.has_edge(*e) for e in es):
+                    break
+            else:
+                ok = False
+                break
+            for c in "AB":
+                for i in sorted({p for s_, p in zip(shape, picks) if s_ == c}, reverse=True):
+                    stubs[c][i] = stubs[c][-1]
+                    stubs[c].pop()
+            for a, b in es:
+                G.add_edge(a, b)
+                G.edges[a, b][NN.TOPOLOGY] = "3-clique"
+                G.edges[a, b][NN.MOTIF_IDS] = mid
+        if ok and not stubs["A"] and not stubs["B"]:
+            for v in A:
+                G.nodes[v][NN.JOINT_DEGREE] = (dA,)
+            for v in B:
+                G.nodes[v][NN.JOINT_DEGREE] = (dB,)
+            G._quiet = False
+            G.events = []
+            return G
+    raise RuntimeError("could not build the two-class triangle network")
+
+
 def run_approach(case, res):
     from gcmpy import ToolsNames as TN
     rng = random.Random(case["seed"])
@@ -124,16 +179,33 @@ def run_approach(case, res):
     pool = [(5, 1), (3, 2), (1, 3), (2, 1), (4, 2), (1, 1)] if fam == "c2c3" else [(4, 1), (2, 2), (1, 1), (3, 1)]
     classes = rng.sample(pool, k) if case["ids"] == "shuffled" else [(5, 1), (3, 2), (1, 3)]
     N = rng.randint(300, 450)
-    G, info = build_clean_network(rng, N, families, classes, assort=0.4, ids=case["ids"], graph_cls=MonitoredGraph)
-    names = info["names"]
+    tkind, lam, frac, assort = "assortative", 0.8, 0.75, 0.4
+    if case.get("variant") == "short-disassortative":
+        # few swaps on a network whose corners are still whole motifs' corners (triangles), two classes, target with most weight
+        # on the cross-class pairings: a rule that mishandles multi-edge corners shows here before the chain has scrambled them
+        classes = [(1,), (2,)] if fam == "c3" else rng.sample(pool, 2)
+        N = rng.randint(700, 900)
+        tkind, lam, frac, assort = "disassortative", 0.85, 0.08, -0.6
+    if case.get("variant") == "short-cross":
+        # already 60 % cross-class edges, target 80 %: few swaps, corners still whole triangles' corners
+        NA = rng.choice([480, 600])
+        G = build_two_class_triangles(rng, NA, NA // 2, int(0.45 * (NA * 2 + NA // 2 * 4) / 3))
+        names, fam, classes, N = ["3-clique"], "c3-two-class", [(2,), (4,)], NA + NA // 2
+    else:
+        G, info = build_clean_network(rng, N, families, classes, assort=assort, ids=case["ids"], graph_cls=MonitoredGraph)
+        names = info["names"]
     why = check_clean(G)
     if why:
         raise RuntimeError("builder produced an unclean network: " + why)
-    T = c11.make_target(rng, G, names, "assortative", lam=0.8)
+    T = c11.make_target(rng, G, names, tkind, lam=lam)
     E = G.number_of_edges()
-    extra = {TN.CONVERGENCE_LIMIT: int(0.75 * E), TN.SEARCH_LIMIT: 20}
+    if case.get("variant") == "short-cross":
+        T = {"3-clique": {(1, 1): 0.1, (1, 3): 0.4, (3, 1): 0.4, (3, 3): 0.1}}
+        frac = 0.18
+    extra = {TN.CONVERGENCE_LIMIT: int(frac * E), TN.SEARCH_LIMIT: 20}
     before = l1(reference_mixing(G, names), T, names)
-    base = {"kind": "approach", "ids": case["ids"], "family": fam, "N": N, "classes": classes, "edges": E, "limit": int(0.75 * E), "seed": case["seed"]}
+    base = {"kind": "approach", "ids": case["ids"], "family": fam, "N": N, "classes": classes, "edges": E, "limit": int(frac * E), "seed": case["seed"],
+            "variant": case.get("variant", "long-assortative")}
     mon = c11.run_rewire(res, G, names, T, extra, seed=case["seed"], ctx=base, cap=None, stall=400000)
     res.count("approach_runs")
     res.count("accepted_swaps", mon.accepted)
@@ -147,7 +219,7 @@ def run_approach(case, res):
     base.update(before=round(before, 4), after=round(after, 4), accepted=mon.accepted, proposals=mon.props, stopped=mon.stopped)
     res.sample = base
     res.digest = digest([case["seed"], case["ids"], fam])
-    res.nontrivial = abs(before - after) > 0.1
+    res.nontrivial = abs(before - after) > (0.1 if case.get("variant") not in ("short-disassortative", "short-cross") else 0.01)
     if case["ids"] == "sorted":
         res.count("approach_sorted_ids_runs")
         if not (after < before):
